@@ -117,7 +117,7 @@ def strategy_(draw, tier):
         fasta.append(">%s\n%s\n" % (name, read))
     return {"gfa": gen_graph.gfa_text(g, with_seq=True, order_seed=draw(st.integers(0, 99))), "gaf": lines,
             "fasta": "".join(fasta), "cores": draw(st.integers(1, 2)), "batch": draw(st.integers(1, 3)),
-            "kind": "sim", "long": long_class}
+            "kind": "sim", "long": long_class, "via": draw(st.sampled_from(["api", "api", "cli"]))}
 
 
 def strategy(tier):
@@ -193,7 +193,8 @@ def run_case(case):
         if case.get("kind") == "real":
             res, text = rc.run_realign(case, d, platform=None, sub="out.gaf")
         else:
-            res, text = rc.run_realign(case, d, platform=fakemp.Platform(fakemp.Chooser([])), sub="out.gaf", recorder=rec)
+            res, text = rc.run_realign(case, d, platform=fakemp.Platform(fakemp.Chooser([])), sub="out.gaf", recorder=rec,
+                                       via=case.get("via", "api"))
     core.check(res[0] == "ok", "realign failed: %s", res)
     core.check(text is not None and (text == "" or text.endswith("\n")), "realign output missing or truncated")
     out = text.split("\n")[:-1]
@@ -288,6 +289,16 @@ def enumerations(tier, shard, nshards):
         fasta = ">edge\nAAA%sTTTTTTTTT\n>over\nAAA%sTTTTTTTTT\n" % (big[1:60001], big[1:60001] + "A")
         for kind in ("sim", "real"):
             yield {"gfa": gfa, "gaf": gaf, "fasta": fasta, "cores": 1, "batch": 1, "kind": kind}
+        # read slice and path slice on different sides of the limit: 60 200 read bases against 59 990 path bases must
+        # pass through unchanged (non-canonical CIGAR kept); 59 990 read bases against 60 000 path bases is realigned
+        ins = "".join(rnd.choice("ACGT") for _ in range(210))
+        gaf2 = [
+            "longread\t60210\t5\t60205\t+\t>s1>s2\t60007\t1\t59991\t59990\t60200\t60\tcg:Z:30000=100I110I29990=\tNM:i:210",
+            "longpath\t60000\t5\t59995\t+\t>s1>s2\t60007\t1\t60001\t59990\t60000\t60\tcg:Z:30000=10D29990=",
+        ]
+        fasta2 = ">longread\nAAAAA%s%s%sTTTTT\n>longpath\nAAAAA%s%sTTTTT\n" % (
+            big[1:30001], ins, big[30001:59991], big[1:30001], big[30011:60001])
+        yield {"gfa": gfa, "gaf": gaf2, "fasta": fasta2, "cores": 1, "batch": 1, "kind": "sim"}
         # a small real-process case with reverse steps
         yield {"gfa": "S\ta\tACGTTGCA\tLN:i:8\tSN:Z:chr1\tSO:i:0\tSR:i:0\nS\tb\tGGATC\tLN:i:5\tSN:Z:chr1\tSO:i:8\tSR:i:0\nL\ta\t+\tb\t+\t0M\n",
                "gaf": ["r1\t9\t1\t8\t+\t<b<a\t13\t2\t9\t7\t7\t60\tcg:Z:7="], "fasta": ">r1\nTTCCTGCAA\n", "cores": 2, "batch": 1,
